@@ -66,6 +66,22 @@ pub fn run(name: &str, a: &Args) -> Option<String> {
             let r = a.unit(0) * (a.z(1) as i64);
             let r2 = (a.z(1) as i64) * a.unit(0);
             assert!(r.to_parts() == r2.to_parts());
+            {
+                use hifitime::TimeUnits;
+                let k = a.z(1) as i64;
+                let r3 = match a.unit(0) {
+                    Unit::Nanosecond => k.nanoseconds(),
+                    Unit::Microsecond => k.microseconds(),
+                    Unit::Millisecond => k.milliseconds(),
+                    Unit::Second => k.seconds(),
+                    Unit::Minute => k.minutes(),
+                    Unit::Hour => k.hours(),
+                    Unit::Day => k.days(),
+                    Unit::Week => k.weeks(),
+                    Unit::Century => k.centuries(),
+                };
+                assert!(r.to_parts() == r3.to_parts(), "TimeUnits method differs from Unit * i64");
+            }
             pdur(r)
         }
         "eq" => {
